@@ -80,6 +80,11 @@ class RecoMon(Ledger):
         super().on_reward(ctx, t, r)
 
     def on_query(self, ctx, p):
+        if ctx.extra.get("mid"):
+            # asked while the evaluation of the pulled point is pending: C07 speaks about the recommendation after a
+            # run, so the answer is not judged - but the query must not disturb the later recommendations
+            self.obs["mid_round_queries_answer_not_judged"] += 1
+            return
         self.on_last(ctx, p)
 
     def on_last(self, ctx, p):
